@@ -1,3 +1,3 @@
 SPECIFICATION Spec
-INVARIANTS Mono NoFalseReject OnlyNewer Accounting FwdOK
+INVARIANTS Mono NoFalseReject OnlyNewer Accounting FwdOK Independent
 CHECK_DEADLOCK FALSE
